@@ -14,6 +14,9 @@ RULE = ("Boundary stream (always): every bound of every IANA special-purpose blo
         "and without a %zone suffix, crossed with the 4 option settings and a rotating proxy mode (thorough: all "
         "notations). Random stream: 45% random offset inside a random registry/stdlib block, 20% inside a computed "
         "table-difference interval, 15% uniform, 20% within +-300 of a bound; options/mode/notation/zone random. "
+        "Histories (a fixed table of same-peer local/non-local orders + 20% of the random stream): 2-6 connections on ONE "
+        "fresh Block instance from a pool of 1-3 peers, 35% local mode, options changing with p=0.2 per step, each "
+        "connection judged independently. Every case uses a fresh Block instance registered with a fresh master. "
         "2% end-to-end cases drive the real ConnectionHandler.handle_client. Non-trivial = the address is in some "
         "special block or the connection was refused; distinct by canonical JSON.")
 TRUSTED = ["Coq 8.16.1 kernel (coqc), vm_compute for the interval checks and case evaluation",
@@ -27,7 +30,7 @@ ASSUMPTIONS = ["client.peername[0] is a numeric host as produced by the socket l
 TRANSLATORS = ["block"]
 ALLOWED_AXIOMS = []
 CASE_TYPE = "case"
-COQ_PRELUDE = "From MV Require Import Model.Ipaddr Gen.Block.\nOpen Scope string_scope.\n"
+COQ_PRELUDE = "From MV Require Import Model.Ipaddr Gen.Block Model.BlockDiff.\nOpen Scope string_scope.\n"
 
 VERIF = os.path.dirname(os.path.dirname(os.path.dirname(os.path.abspath(__file__))))
 MAXV = {4: 2**32 - 1, 6: 2**128 - 1}
@@ -218,8 +221,52 @@ def _views(n4):
     return [(4, n4), (6, MAPPED + n4)]
 
 
+HIST_PEERS = [(4, 134744072), (4, 167772161), (6, MAPPED + 134744072), (6, 0x20014860486000000000000000008888),
+              (4, 1681915905), (6, 0xfe800000000000000000000000000001), (4, 2130706433), (4, 3232235777)]
+HIST_MODES = ["regular", "socks5", "reverse:http://example.com:80", "wireguard", "transparent"]
+
+
+def _hist(steps):
+    return {"k": "hist", "steps": [{k: v for k, v in c.items() if k != "k"} for c in steps]}
+
+
+def _hist_table():
+    """same peer, same options, on one instance: local then non-local, non-local then local, and A-B-A orders"""
+    out = []
+    k = 0
+    for fam, a in HIST_PEERS:
+        for bp, bg in OPTS[1:]:
+            k += 1
+            m = HIST_MODES[k % len(HIST_MODES)]
+            m2 = HIST_MODES[(k + 1) % len(HIST_MODES)]
+            nt = NOTATIONS[fam][k % len(NOTATIONS[fam])]
+            z = ZONES[k % len(ZONES)]
+            mk = lambda mode, b1=bp, b2=bg: _conn(fam, a, nt, z, b1, b2, mode)
+            out.append(_hist([mk("local"), mk(m)]))
+            out.append(_hist([mk(m), mk("local:curl")]))
+            out.append(_hist([mk(m), mk(m2), mk("local"), mk(m)]))
+            out.append(_hist([mk("local"), mk(m, not bp, not bg), mk(m), mk("local", not bp, bg), mk(m2)]))
+    return out
+
+
+def _rand_hist(rng):
+    pool = []
+    for _ in range(rng.randint(1, 3)):
+        fam, a = rng.choice(HIST_PEERS) if rng.chance(0.6) else (4, rng.below(MAXV[4] + 1))
+        pool.append((fam, a, rng.choice(NOTATIONS[fam]), rng.choice(ZONES)))
+    bp, bg = rng.choice(OPTS)
+    steps = []
+    for _ in range(rng.randint(2, 6)):
+        if rng.chance(0.2):
+            bp, bg = rng.choice(OPTS)
+        fam, a, nt, z = rng.choice(pool)
+        mode = rng.choice(["local", "local:curl"]) if rng.chance(0.35) else rng.choice(MODES)
+        steps.append(_conn(fam, a, nt, z, bp, bg, mode))
+    return _hist(steps)
+
+
 def gen(rng, n, tier):
-    out = [{"k": "diffs"}]
+    out = [{"k": "diffs"}] + _hist_table()
     k = 0
     addrs = []
     for b in bounds(4):
@@ -241,6 +288,9 @@ def gen(rng, n, tier):
                 k += 1
                 out.append(_conn(fam, a, notation, ZONES[k % len(ZONES)], bp, bg, MODES[k % len(MODES)]))
     for _ in range(n):
+        if rng.chance(0.2):
+            out.append(_rand_hist(rng))
+            continue
         r = rng.random()
         fam = 4 if rng.chance(0.45) else 6
         if r < 0.45:
@@ -266,15 +316,56 @@ def gen(rng, n, tier):
 
 def setup_impl():
     import logging
-    from mitmproxy import connection, options
+    from mitmproxy import connection
     from mitmproxy.addons import block
     from mitmproxy.proxy import mode_specs
     from mitmproxy.test import taddons
     logging.disable(logging.CRITICAL)
-    addon = block.Block()
-    tctx = taddons.context(addon)
-    tctx.__enter__()                         # installs mitmproxy.ctx for the life of the process
-    _STATE.update(addon=addon, tctx=tctx, connection=connection, mode_specs=mode_specs)
+    _STATE.update(block=block, taddons=taddons, connection=connection, mode_specs=mode_specs, ready=True)
+
+
+def _fresh():
+    """A NEW Block instance registered with a new master: every case starts from a fresh addon, so a case replays on its
+    own; option updates reach the addon's configure hook (if it has one) through the real addon manager."""
+    addon = _STATE["block"].Block()
+    tctx = _STATE["taddons"].context(addon)          # Master() also installs mitmproxy.ctx.options
+    return addon, tctx
+
+
+def _close(tctx):
+    if tctx.owns_loop and not tctx.master.event_loop.is_closed():
+        tctx.master.event_loop.close()
+
+
+def _check_speller(c):
+    # the generator's own claim "this spelling denotes (fam, n)" is checked against the reference parser
+    import ipaddress
+    ref = ipaddress.ip_address(c["peer"].split("%", 1)[0])
+    if (ref.version, int(ref)) != (c["fam"], int(c["n"])):
+        raise AssertionError(f"harness speller wrong: {c['peer']} is not ({c['fam']}, {c['n']})")
+
+
+def _set_options(tctx, c):
+    # only options whose value really changes are set (OptManager.update reports every key it is given as updated,
+    # which would spuriously run configure hooks between two connections served under unchanged options)
+    want = {"block_private": c["bp"], "block_global": c["bg"]}
+    changed = {k: v for k, v in want.items() if getattr(tctx.options, k) != v}
+    if changed:
+        tctx.options.update(**changed)
+
+
+def _hook(addon, tctx, c):
+    """one client_connected event on the given instance, with the given option values current"""
+    _check_speller(c)
+    _set_options(tctx, c)
+    client, mode_cls = _client(c)
+    o = {"mode_cls": mode_cls}
+    try:
+        addon.client_connected(client)
+        o["error"] = client.error
+    except Exception as e:
+        o["raised"] = type(e).__name__
+    return o
 
 
 def _client(case):
@@ -284,26 +375,28 @@ def _client(case):
 
 
 def run_impl(case):
-    import ipaddress
-    if "addon" not in _STATE:
+    if "ready" not in _STATE:
         setup_impl()
     S = _STATE
     if case["k"] == "diffs":
         return {"d4": [[str(a), str(b)] for a, b in diff_intervals(4)], "d6": [[str(a), str(b)] for a, b in diff_intervals(6)]}
-    # the generator's own claim "this spelling denotes (fam, n)" is checked against the reference parser
-    ref = ipaddress.ip_address(case["peer"].split("%", 1)[0])
-    if (ref.version, int(ref)) != (case["fam"], int(case["n"])):
-        raise AssertionError(f"harness speller wrong: {case['peer']} is not ({case['fam']}, {case['n']})")
-    S["tctx"].options.update(block_private=case["bp"], block_global=case["bg"])
+    addon, tctx = _fresh()
+    try:
+        if case["k"] == "hist":
+            return {"steps": [_hook(addon, tctx, c) for c in case["steps"]]}
+        if case["k"] == "conn":
+            return _hook(addon, tctx, case)
+        return _e2e(addon, tctx, case)
+    finally:
+        _close(tctx)
+
+
+def _e2e(addon, tctx, case):
+    S = _STATE
+    _check_speller(case)
+    _set_options(tctx, case)
     client, mode_cls = _client(case)
     obs = {"mode_cls": mode_cls}
-    if case["k"] == "conn":
-        try:
-            S["addon"].client_connected(client)
-            obs["error"] = client.error
-        except Exception as e:
-            obs["raised"] = type(e).__name__
-        return obs
     # end-to-end: the real ConnectionHandler.handle_client with the Block addon behind the hook
     import asyncio
     from mitmproxy.proxy import context, server, server_hooks
@@ -317,7 +410,7 @@ def run_impl(case):
         async def handle_hook(self, hook):
             if isinstance(hook, server_hooks.ClientConnectedHook):
                 trace.append("hook")
-                S["addon"].client_connected(*hook.args())
+                addon.client_connected(*hook.args())
 
         async def server_event(self, event):
             trace.append("StartEvent" if type(event).__name__ == "Start" else type(event).__name__)
@@ -326,7 +419,7 @@ def run_impl(case):
             trace.append("HandleConnection")
 
     async def go():
-        h = H(context.Context(client, S["tctx"].options))
+        h = H(context.Context(client, tctx.options))
         h.transports[client] = server.ConnectionIO(writer=Writer())
         await h.handle_client()
 
@@ -354,6 +447,12 @@ def coq_case(case, obs):
         # computed inside Coq from the dumped tables
         pl = lambda d: clist((f"({cN(int(a))}, {cN(int(b))})" for a, b in d), "(N * N)")
         return f"Diffs {pl(obs['d4'])} {pl(obs['d6'])}"
+    if case["k"] == "hist":
+        steps = []
+        for c, ob in zip(case["steps"], obs["steps"]):
+            oo = "ObsRaised" if "raised" in ob else f"(ObsError {copt(ob['error'], _cstr, 'string')})"
+            steps.append(f"(Build_conn {cbool(c['bp'])} {cbool(c['bg'])} {ob['mode_cls']} {_cip(c)}, {oo})")
+        return f"Hist {clist(steps, '(conn * obs)')}"
     o = "ObsRaised" if "raised" in obs else f"(ObsError {copt(obs['error'], _cstr, 'string')})"
     head = f"{cbool(case['bp'])} {cbool(case['bg'])} {obs['mode_cls']} {_cip(case)} {o}"
     if case["k"] == "conn":
@@ -366,6 +465,14 @@ def coq_case(case, obs):
 def oracle(case, obs):
     if case["k"] == "diffs":
         return []
+    if case["k"] == "hist":
+        # every connection of the history is judged on its own: current options, its own peer and mode only
+        v = []
+        hist = " -> ".join(f"{c['peer']}[{c['mode']},bp={int(c['bp'])},bg={int(c['bg'])}]" for c in case["steps"])
+        for i, (c, ob) in enumerate(zip(case["steps"], obs["steps"])):
+            for x in oracle({**c, "k": "conn"}, ob):
+                v.append({"key": x["key"], "what": f"connection {i + 1} of the history {hist} on one Block instance: {x['what']}"})
+        return v
     if "raised" in obs:
         return [{"key": "raised", "what": f"client_connected raised {obs['raised']} for peer {case['peer']}"}]
     fam, n = case["fam"], int(case["n"])
@@ -389,6 +496,8 @@ def oracle(case, obs):
 def nontrivial(case, obs):
     if case["k"] == "diffs":
         return True
+    if case["k"] == "hist":
+        return any(nontrivial({**c, "k": "conn"}, ob) for c, ob in zip(case["steps"], obs["steps"]))
     f, a = effective(case["fam"], int(case["n"]))
     return obs.get("error") is not None or any(lo <= a <= hi for lo, hi, _ in SPEC[f])
 
@@ -396,6 +505,21 @@ def nontrivial(case, obs):
 def classify(case, obs):
     if case["k"] == "diffs":
         return ["diffs"]
+    if case["k"] == "hist":
+        st, ob = case["steps"], obs["steps"]
+        tags = ["hist", f"hist-len={min(len(st), 6)}"]
+        seen = {}
+        for c, o in zip(st, ob):
+            loc = o["mode_cls"] == "LocalMode"
+            for (ploc, pbp, pbg) in seen.get(c["peer"], []):
+                tags.append("hist-repeat-peer")
+                if ploc != loc and (pbp, pbg) == (c["bp"], c["bg"]):
+                    tags.append("hist-same-peer-local-vs-nonlocal-same-options")
+                if (pbp, pbg) != (c["bp"], c["bg"]):
+                    tags.append("hist-same-peer-options-changed")
+            seen.setdefault(c["peer"], []).append((loc, c["bp"], c["bg"]))
+        tags += ["hist-some-killed" if any(o.get("error") for o in ob) else "hist-none-killed"]
+        return sorted(set(tags))
     fam, n = case["fam"], int(case["n"])
     f, a = effective(fam, n)
     loop, priv, glob = spec_classes(f, a)
